@@ -43,9 +43,7 @@ let hist_tags args =
   @ (if has "WE" || has "WSG" then ["limit"] else []) @ (if has "WS" || has "FWS" then ["start"] else [])
   @ (if has "B" || has "K" || has "R1" then ["backward"] else [])
 
-let () =
-  List.iter (fun prop ->
-    reg prop "Hist" (fun ver args _obs ->
+let views_hist_handler = fun ver args _obs ->
       let a = mk args in
       let kind = kind_code (next a) in
       let raw = next_list a next_z in
@@ -55,8 +53,13 @@ let () =
       if ver = "v3" && kind = 0 && small_int_of_z (test_number_status raw rep) = 2 then ok_v ["ERR"] ["error"]
       else
       let ans = run_history (ver_z ver) (z_of_int kind) raw rep e ops in
-      ok_v (List.map zs ans) (hist_tags args @ (if kind = 1 then ["generator"] else []))))
+      ok_v (List.map zs ans) (hist_tags args @ (if kind = 1 then ["generator"] else []))
+
+let () =
+  List.iter (fun prop -> reg prop "Hist" views_hist_handler)
     ["C04"; "C07"; "C17"; "C13"; "C06"; "C14"]
+(* the same histories under another operation name where "Hist" is taken by the Positions histories *)
+let () = List.iter (fun prop -> reg prop "VHist" views_hist_handler) ["C14"; "C18"]
 
 (* C05: Conc <base> g nops_1 op.. nops_2 op.. => ntok_1 answers_1 ...  - every goroutine must get its sequential answers *)
 let () = reg "C05" "Conc" (fun ver args _obs ->
